@@ -562,6 +562,14 @@ func checkAdminPredicates(c *km.Ctx, s *km.Sem) {
 				continue
 			}
 			if km.ValStr(cst) != "true" {
+				// "cannot tell" is reserved for a directory that did not answer: IsAdminUser falls back to the
+				// expired cached verdict on an error, so an error made up for an answer the directory did give
+				// (an empty group list) keeps a demoted administrator for as long as the daemon runs
+				if len(rc.Results) == 2 && !km.IsNilConst(rc.Results[1]) {
+					cl, idx := callRes(km.Unwrap(rc.Results[1]))
+					okE := cl != nil && idx == 1 && strings.HasSuffix(km.CalleeFull(cl.Common()), ".getUserGroups")
+					r.Add("R-C08-2", km.FuncName(fn), "error verdict", posOf(c, rc.Ret), "the only error is the group lookup's own error", km.ValStr(rc.Results[1]), okE)
+				}
 				continue
 			}
 			// true: must be under user == adminUser (config) or map lookup ok of an admin group
